@@ -17,7 +17,7 @@ var (
 	realms         = []string{"API", "my \"realm\"", "back\\slash", "both \\\" of them", "ü €", "a,b=c", "\"", "\\", "trailing\\", " spaced  out ", "realm=\"x\", Basic realm=\"y\""}
 	realmAlphabet  = []rune{'a', 'Z', '0', '"', '\\', ' ', ',', '=', ';', '%', 'ü', '€', '\''}
 	methods        = []string{"get", "get", "head", "head", "post", "put", "delete"}
-	outcomes       = []string{"value", "value", "value", "nil", "responder", "responder", "resperr", "mwerror", "notimpl", "errplain", "errstatus", "errcomposite"}
+	outcomes       = []string{"value", "value", "value", "nil", "responder", "responder", "resperr", "mwerror", "mwerror-nil", "notimpl", "errplain", "errstatus", "errcomposite"}
 	creds          = []string{"good", "good", "good", "good", "bad", "none", "malformed", "bearer", "goodbearer"}
 )
 
@@ -55,6 +55,7 @@ func Gen(t *rapid.T) Case {
 	c.AuthErr = rapid.SampledFrom([]string{"unauth", "unauth", "plain", "forbidden"}).Draw(t, "autherr")
 	c.LateResponder = rapid.IntRange(0, 2).Draw(t, "late-responder") == 0
 	c.SharedResults = rapid.IntRange(0, 2).Draw(t, "shared-results") == 0
+	c.NoIDs = rapid.IntRange(0, 3).Draw(t, "no-operation-ids") == 0
 	nops := rapid.IntRange(1, 4).Draw(t, "nops")
 	for i := 0; i < nops; i++ {
 		op := Op{Method: rapid.SampledFrom(methods).Draw(t, "method")}
@@ -104,7 +105,7 @@ func Gen(t *rapid.T) Case {
 		}
 		rq.Outcome = rapid.SampledFrom(outcomes).Draw(t, "outcome")
 		switch rq.Outcome {
-		case "mwerror":
+		case "mwerror", "mwerror-nil":
 			rq.Code = rapid.SampledFrom([]int{400, 404, 409, 422, 500, 503, 0, -1}).Draw(t, "code")
 		case "errstatus", "errcomposite":
 			rq.Code = rapid.SampledFrom([]int{400, 404, 409, 418, 500, 503}).Draw(t, "code")
@@ -224,6 +225,9 @@ func Classify(c Case) (bool, []string) {
 	}
 	if c.LateResponder {
 		l["error responder installed after the handler was built"] = true
+	}
+	if c.NoIDs && len(c.Ops) > 1 {
+		l["several operations without operationId"] = true
 	}
 	if c.SharedResults {
 		n := 0
